@@ -40,6 +40,8 @@ type Scenario struct {
 	Delay bool
 	// MaxBound caps the deviation bound for this scenario (0 = no cap)
 	MaxBound int
+	// UnboundedThoroughOnly skips the all-interleavings pass in the quick tier
+	UnboundedThoroughOnly bool
 	// QuickMaxBound caps the bound in the quick tier only
 	QuickMaxBound int
 	// Tags select scenarios per tier ("quick" scenarios run in both tiers)
